@@ -8,6 +8,7 @@ Replay executes a stored schedule through the same `execute` and never touches
 the PRNG.
 """
 import collections
+import copy
 import hashlib
 import json
 import math
@@ -342,7 +343,7 @@ def fails_with(workload, schedule, prop, signature):
 
 def shrink(workload, schedule, prop, signature, budget=600):
     """Return a smaller schedule that still fails with the same signature. `budget` bounds executions."""
-    best = json.loads(dumps(schedule))
+    best = copy.deepcopy(schedule)
     used = [0]
 
     def test(cand):
@@ -426,7 +427,6 @@ def write_replay(prop, v, schedule, base_seed, tier):
             },
             f,
             indent=1,
-            sort_keys=True,
             default=_default,
         )
     return path
